@@ -317,6 +317,22 @@ func varInitBytes(c *Ctx, pkgShort, name string) []byte {
 			}
 		}
 	case *ast.CompositeLit:
+		// only slices/arrays of bytes (other integer lists are handled by varInitInts)
+		if tv, ok := info.Types[x]; ok {
+			var elem types.Type
+			switch u := tv.Type.Underlying().(type) {
+			case *types.Slice:
+				elem = u.Elem()
+			case *types.Array:
+				elem = u.Elem()
+			}
+			if elem == nil {
+				return nil
+			}
+			if b, ok := elem.Underlying().(*types.Basic); !ok || (b.Kind() != types.Uint8 && b.Kind() != types.Int8) {
+				return nil
+			}
+		}
 		var out []byte
 		for _, el := range x.Elts {
 			tv, ok := info.Types[el]
@@ -901,4 +917,26 @@ func headerSubject(in ssa.Instruction) ssa.Value {
 		}
 	}
 	return nil
+}
+
+// varInitInts: a package-level slice/array literal of integer constants (not bytes).
+func varInitInts(c *Ctx, pkgShort, name string) ([]int64, bool) {
+	e, info := findVarInit(c, pkgShort, name)
+	cl, ok := e.(*ast.CompositeLit)
+	if !ok || len(cl.Elts) == 0 {
+		return nil, false
+	}
+	var out []int64
+	for _, el := range cl.Elts {
+		if kv, isKV := el.(*ast.KeyValueExpr); isKV {
+			el = kv.Value
+		}
+		tv, ok := info.Types[el]
+		if !ok || tv.Value == nil || tv.Value.Kind() != constant.Int {
+			return nil, false
+		}
+		v, _ := constant.Int64Val(tv.Value)
+		out = append(out, v)
+	}
+	return out, true
 }
